@@ -36,6 +36,9 @@ pub struct Case {
     /// native units of the $1 collateral token held by the account (assets)
     pub assets: u64,
     pub account_flags: u64,
+    /// seconds since the debt bank last accrued when the bankruptcy is handled (0 = up to date)
+    #[serde(default)]
+    pub stale_s: i64,
 }
 
 fn bank_spec_by(name: &str) -> BankSpec {
@@ -140,9 +143,21 @@ fn fee_of(amount: u64, fee: Option<(u16, u64)>) -> u64 {
 }
 
 pub fn judge(w: &World, s0: &Store, c: &Case) -> Judged {
-    let pre = prepare(w, s0, c);
+    let mut pre = prepare(w, s0, c);
+    if c.stale_s > 0 {
+        pre.advance(c.stale_s);
+        refresh_oracles(&mut pre, w);
+    }
     let mut post = pre.clone();
     let r = process_tx(&mut post, &tx_of(w, &pre, c));
+    // every reference quantity is taken from the pre-state brought up to date by the real accrue
+    // instruction: what the account owes and what depositors hold *now*
+    let pre_exec = pre.clone();
+    if c.stale_s > 0 {
+        let ra = act::apply(w, &mut pre, &Action::Accrue { b: 0 });
+        assert!(ra.committed, "reference accrual failed: {}", crate::svm::err_name(ra.code));
+    }
+    let _ = &pre_exec;
     let rep = json!({"model": "C07", "case": c});
     let mut found = vec![];
     let mut fail = |clause: &str, detail: String| found.push(Found { clause: clause.into(), sig: sig(c), detail, replay: rep.clone() });
@@ -199,6 +214,9 @@ pub fn judge(w: &World, s0: &Store, c: &Case) -> Judged {
         class = "accepted:at_kill_threshold";
         if n1.op_state == 3 && n1.asv != 0 {
             fail("C07.kill_when_consumed", "bank killed but asset share value is not zero".into());
+        }
+        if n1.op_state != 3 && n1.asv == 0 && n0.a_sh != 0 {
+            fail("C07.kill_when_consumed", format!("the uncovered loss {:.9} wiped the deposits {:.9} out (asset share value is now 0) but the bank state is {} instead of killed", rf::qf64(&loss), rf::qf64(&d0), n1.op_state));
         }
     } else if loss >= d0 {
         class = "accepted:killed";
@@ -262,7 +280,7 @@ pub fn cases(tier: Tier, bank: &str, dist: usize, deposits: u64) -> Vec<Case> {
                 }
                 for &lsv in &lsvs {
                     for (signer, perm) in signers.iter() {
-                        v.push(Case { bank: bank.into(), dist, ins, debt_raw: debt.to_string(), lsv_raw: lsv.to_string(), signer: signer.clone(), permissionless: *perm, target: 0, assets: 0, account_flags: 0 });
+                        v.push(Case { bank: bank.into(), dist, ins, debt_raw: debt.to_string(), lsv_raw: lsv.to_string(), signer: signer.clone(), permissionless: *perm, target: 0, assets: 0, account_flags: 0, stale_s: 0 });
                     }
                 }
             }
@@ -274,14 +292,27 @@ pub fn cases(tier: Tier, bank: &str, dist: usize, deposits: u64) -> Vec<Case> {
         for target in [0u8, 1, 2] {
             for flags in [0u64, ACCOUNT_IN_FLASHLOAN, ACCOUNT_IN_RECEIVERSHIP, ACCOUNT_DISABLED] {
                 for (signer, perm) in [(Signer::RiskAdmin, false), (Signer::Stranger, true), (Signer::Stranger, false)] {
-                    v.push(Case { bank: bank.into(), dist, ins: 1_000, debt_raw: debt.to_string(), lsv_raw: one.to_string(), signer, permissionless: perm, target, assets, account_flags: flags });
+                    v.push(Case { bank: bank.into(), dist, ins: 1_000, debt_raw: debt.to_string(), lsv_raw: one.to_string(), signer, permissionless: perm, target, assets, account_flags: flags, stale_s: 0 });
+                }
+            }
+        }
+    }
+    // the debt bank has not accrued for 30 days / a year: bad debt below deposits (utilisation < 1)
+    for ins in [0u64, 1_000] {
+        for num in [1i128, 2, 3] {
+            for stale_s in [86_400i64 * 30, 31_536_000] {
+                for &lsv in &lsvs {
+                    for (signer, perm) in [(Signer::RiskAdmin, false), (Signer::Stranger, true)] {
+                        let debt = (ins as i128 + deposits as i128 * num / 4) * one + half;
+                        v.push(Case { bank: bank.into(), dist, ins, debt_raw: debt.to_string(), lsv_raw: lsv.to_string(), signer, permissionless: perm, target: 0, assets: 0, account_flags: 0, stale_s });
+                    }
                 }
             }
         }
     }
     // assets above liabilities but under ten cents: not bankrupt
     for debt_small in [one / 100, one * 20_000] {
-        v.push(Case { bank: bank.into(), dist, ins: 0, debt_raw: debt_small.to_string(), lsv_raw: one.to_string(), signer: Signer::RiskAdmin, permissionless: false, target: 0, assets: 50_000, account_flags: 0 });
+        v.push(Case { bank: bank.into(), dist, ins: 0, debt_raw: debt_small.to_string(), lsv_raw: one.to_string(), signer: Signer::RiskAdmin, permissionless: false, target: 0, assets: 50_000, account_flags: 0, stale_s: 0 });
     }
     v
 }
@@ -454,7 +485,7 @@ pub fn replay(v: &serde_json::Value) -> Vec<crate::mc::Violation> {
         // recreate a killed bank: debt far above deposits, no insurance
         let (w, s0) = base(bank, 0);
         let one = I80F48::ONE.to_bits();
-        let c = Case { bank: bank.into(), dist: 0, ins: 0, debt_raw: (50_000 * one).to_string(), lsv_raw: one.to_string(), signer: Signer::RiskAdmin, permissionless: false, target: 0, assets: 0, account_flags: 0 };
+        let c = Case { bank: bank.into(), dist: 0, ins: 0, debt_raw: (50_000 * one).to_string(), lsv_raw: one.to_string(), signer: Signer::RiskAdmin, permissionless: false, target: 0, assets: 0, account_flags: 0, stale_s: 0 };
         let j = judge(&w, &s0, &c);
         let Some(k) = j.killed_state else { return vec![] };
         let mut found = vec![];
